@@ -201,6 +201,12 @@ func runC13(r *RunCtx) error {
 					return new(big.Int).Div(new(big.Int).Mul(big.NewInt(ratio), big.NewInt(em)), big.NewInt(100)).Int64()
 				}
 				r.Hist("ratios", "stipend-is-dev-pool")
+				r.Case("mint", fmt.Sprintf("BlockSameReceiver {| tokens_per_block := %s; mint_decrease := %s; staker_ratio := %s; dev_ratio := %s; prov_ratio := %s; stipend_ok := %s |} %s %s %s %s %s %s %s %s %s %s",
+					cZ(params.TokensPerBlock), cZ(params.MintDecrease), cZ(rt.s), cZ(rt.d), cZ(rt.p), cBool(stipOK),
+					cZ(pre.Fee), cZ(pre.Dev), cZ(pre.Mod), cZ(pre.Supply), cOptZ(pre.Rec),
+					cZ(post.Fee), cZ(post.Dev), cZ(post.Mod), cZ(post.Supply), cOptZ(post.Rec)),
+					map[string]interface{}{"run": k, "block": b, "height": h, "params": params, "denom": eff, "pre": pre, "post": post, "same_receiver": true})
+				r.Count(fmt.Sprintf("blk-same:%v:%d:%d:%v", rt, params.TokensPerBlock, params.MintDecrease, pre.Rec), lastEm > 0)
 				if inQuant {
 					tr := map[string]interface{}{"run": k, "block": b, "height": h, "params": params, "pre": pre, "post": post}
 					if post.Dev-pre.Dev != fl(rt.d)+fl(rt.p) || post.Fee-pre.Fee != fl(rt.s) {
